@@ -55,7 +55,7 @@ def main():
         finally:
             sh(f'git -C /repo worktree remove --force {d}')
             shutil.rmtree(d, ignore_errors=True)
-    if not want:
+    if len(results) == len(M):
         json.dump({'results': results}, open(os.path.join(VERIF, 'mutants', 'RESULTS.json'), 'w'), indent=1)
     bad = [r for r in results if not r.get('as_expected', False)]
     print(f'{len(results)} mutants, {len(bad)} not as expected')
